@@ -267,7 +267,7 @@ def fs_term(s):
 def scenario(id, **kw):
     sc = {"id": id, "layout": "flat", "with_import": True, "mutation": None, "args": ["build"], "fail": None, "plan": "",
           "keep": False, "hashfast": False, "prewarm": False, "force": False, "compile": False, "debug": False,
-          "leftover": None, "leftover_where": "top", "crash": None, "enospc": None, "envfault": None, "out": None, "wflag": None, "must_succeed": False, "module": None, "goflags": None, "ref": None, "special": False}
+          "leftover": None, "leftover_where": "top", "crash": None, "enospc": None, "envfault": None, "out": None, "wflag": None, "must_succeed": False, "module": None, "goflags": None, "knob": None, "ref": None, "special": False}
     sc.update(kw)
     return sc
 
@@ -489,6 +489,37 @@ def build_scenarios(rng, gen, quick):
     return out
 
 
+# the flags of `mage -h` at /repo HEAD: anything else the tree under test offers is a knob no model knows
+KNOWN_FLAGS = {"clean", "compile", "h", "init", "l", "version", "d", "debug", "f", "goarch", "gocmd", "goos", "ldflags", "keep", "t", "v", "w"}
+KNOB_VALUES = ["1", "true", "1s", "@FILE", "vp-knob.out", "out/vp-knob.out"]
+
+
+def discover_flags(mage, cwd):
+    r = mage.run(cwd, ["-h"])
+    found = set(re.findall(r"^\s+-([A-Za-z][A-Za-z0-9_-]*)", r["out"] + "\n" + r["err"], re.M))
+    return sorted(found - KNOWN_FLAGS)
+
+
+def knob_scenarios(S, env_knobs, flag_knobs, quick):
+    """a representative slice of the life-cycle scenarios under every environment variable / flag that the tree under test
+    knows and no model does: the magefile directory afterwards must be the one of the same run without the knob"""
+    byid = {s["id"]: s for s in S}
+    out = []
+    bases = ["ok-build", "target-error", "keep-ok", "named-ok", "named-w", "mfdir-ok", "compile"]
+    for kind, names in (("env", env_knobs), ("flag", flag_knobs)):
+        for name in names:
+            for val in KNOB_VALUES:
+                for b in bases:
+                    if b == "named-w":
+                        base = dict(byid["named-ok"], wflag=".", id="named-w")
+                        refid = None
+                    else:
+                        base, refid = byid[b], b
+                    sc = dict(base, id="knob-%s:%s=%s@%s" % (kind, name, val, b), knob={"kind": kind, "name": name, "value": val}, ref=refid)
+                    out.append(sc)
+    return out
+
+
 def place_leftover(d, sc):
     lo = sc["leftover"]
     if not lo:
@@ -546,8 +577,18 @@ def place_output(d, workdir, sc):
             os.symlink("linked-user-file.txt", p)
 
 
+def knob_concrete(sc, workdir):
+    v = sc["knob"]["value"]
+    if v == "@FILE":                                 # an absolute writable path outside the project
+        os.makedirs(os.path.join(workdir, "knobout"), exist_ok=True)
+        return os.path.join(workdir, "knobout", "knob.out")
+    return v
+
+
 def mage_args(sc, outbin):
     a = ["-d", "magefiles"] if sc["layout"] == "named" else []      # Invoke is GIVEN a directory called magefiles
+    if sc.get("knob") and sc["knob"]["kind"] == "flag":
+        a.append("-%s=%s" % (sc["knob"]["name"], knob_concrete(sc, os.path.dirname(outbin))))
     if sc["keep"]:
         a.append("-keep")
     if sc["force"]:
@@ -573,6 +614,8 @@ def run_env(sc, tools, log, plan=None):
         e["VERIF_FAIL"] = sc["fail"]
     if sc.get("goflags") is not None:
         e["GOFLAGS"] = sc["goflags"]                 # the go tool's module mode as the user's environment sets it
+    if sc.get("knob") and sc["knob"]["kind"] == "env":
+        e[sc["knob"]["name"]] = knob_concrete(sc, os.path.dirname(log))
     # the fake go tool looks whether the generated file exists while each go command runs
     d = os.path.join(os.path.dirname(log), "proj")
     e["VERIF_FAKEGO_WATCH"] = os.path.join(d, "magefiles", MAIN) if sc["layout"] in ("mfdir", "named") else os.path.join(d, MAIN)
@@ -1254,7 +1297,10 @@ def run(ctx):
                          "harness/unitrun op listprefix (in-process mage.Magefiles on a directory with a given mage_output_file.go)",
                          "checks/c09.py + lib/projlib.py (project generator, scenario runner, snapshots, Coq printer, oracle)",
                          "the mapping scenario -> failing step of the model (expected_faults) and stderr -> diagnostic class (stage_of)",
-                         "tmpfs/unshare for the full-disk scenario; SIGKILL delivered to the process group"]
+                         "tmpfs/unshare for the full-disk scenario; SIGKILL delivered to the process group",
+                         "extractlib / harness/extract: Invocation.UsesMagefiles and the names mainfile, initFile, MagefilesDirName are re-translated "
+                         "from the tree and proved equal to what the models take (fn_tie, tables_tie)",
+                         "lib/depslib.discover_knobs (which environment variables the tree reads) and the parsing of `mage -h` (which flags it has)"]
     rng = ctx.rng
     quick = ctx.quick
     mage = projlib.Mage(ctx)
@@ -1341,6 +1387,12 @@ def run(ctx):
         scs = []
     else:
         scs = build_scenarios(rng, gen, quick)
+        # knob discovery: environment variables and flags of the tree under test that no model knows (none at HEAD)
+        import depslib
+        env_knobs = depslib.discover_knobs()
+        flag_knobs = discover_flags(mage, ctx.tmp)
+        cov["knobs_discovered"] = {"env": env_knobs, "flags": flag_knobs}
+        scs += knob_scenarios(scs, env_knobs, flag_knobs, quick)
     byid = {s["id"]: s for s in scs}
     for s in scs:
         tcode_of(s)                                   # sequential: builds the static binaries once
@@ -1435,6 +1487,28 @@ def run(ctx):
             items.append(invoke_case(dict(sc, keep=False), nx, [], imports, 0, gen_tok, "partial", (True, True, True)))
             meta.append((sc, "after-crash"))
             dist["leftover"]["after-kill"] = dist["leftover"].get("after-kill", 0) + 1
+            continue
+        if sc.get("knob"):
+            # the same run without the knob is the reference: same exit status, same magefile directory.  A file at a RELATIVE knob
+            # value in the START directory is the knob's own output when the start directory is not the magefile directory
+            kb = sc["knob"]
+            refo = obs.get(sc["ref"]) if sc["ref"] else obs.get("named-ok")
+            allowed = set()
+            if sc["layout"] in ("named", "mfdir") and not kb["value"].startswith("@") and "/" != kb["value"][:1]:
+                parts = kb["value"].split("/")
+                allowed = {"/".join(parts[:i + 1]) for i in range(len(parts))}
+            a_ = {k: v for k, v in ob["after_h"].items() if k not in allowed}
+            r_ = {k: v for k, v in (refo or {"after_h": ob["before_h"]})["after_h"].items() if k not in allowed}
+            if sc["keep"]:
+                for k in main_paths(sc):
+                    a_.pop(k, None); r_.pop(k, None)
+            diff = sorted(k for k in set(a_) | set(r_) if a_.get(k) != r_.get(k))
+            if diff:
+                ctx.violation({"kind": "oracle", "clause": "with %s %s=%s the directory afterwards differs from the same run without it: %s" % (
+                    "the environment variable" if kb["kind"] == "env" else "the flag -", kb["name"], kb["value"], diff[:6]), "scenario": sc["id"]}, case=case)
+            elif refo is not None and kb["kind"] == "env" and ob["rc"] != refo["rc"]:
+                ctx.violation({"kind": "oracle", "clause": "with the environment variable %s=%s the exit status is %s instead of %s" % (
+                    kb["name"], kb["value"], ob["rc"], refo["rc"]), "scenario": sc["id"]}, case=case)
             continue
         if sc.get("envfault") == "home-unset-gocache" and not JUDGE_HOME_UNSET_CACHE:
             ch = sorted(p for p in set(ob["before_h"]) | set(ob["after_h"]) if ob["before_h"].get(p) != ob["after_h"].get(p))
